@@ -6,6 +6,10 @@ RSYM_NOTE = ('trusted base: the rsym interpreter and its std/quick_xml models (v
              'and every counterexample is replayed natively before it is reported), z3, the syn-based AST dumper; bytes->events is quick_xml and is not encoded')
 
 CHECKS = {
+ 'C15': dict(
+   text='bounded, solver-decided by two engines that must agree: Kani/CBMC verifies the compiled merge_necessity::<u8> for every list shape (LA,LB) in the stated set with all items and tags symbolic (unwinding assertions on, so within a shape the result holds for all values); rsym/z3 decides the same four clauses on the source with symbolic names for all shapes up to 3x3 (4x4 thorough)',
+   design='§4 C15, §2.1', engine='rsym+kani', technique='Kani (CBMC/cadical) bounded model checking of the compiled generic function per list shape, cross-checked by source-level symbolic execution with z3',
+   note='trusted base: Kani 0.68/CBMC 6.11, rsym + z3, tools/replay; Kani instantiates T = u8, the library uses T = String (same generic source)'),
  'C03': dict(
    text='bounded, solver-decided: every feasible path of the parser over symbolic document skeletons (names, presence, repetition, element form, text kind, attribute subsets, document split symbolic) is executed from /repo\'s source and z3 shows PC and not(two-sided inference oracle) unsatisfiable; holds for every document inside the listed skeleton bounds, nothing is claimed outside them',
    design='§4 C03, §3.1, §3.3', technique='symbolic execution of the real source (own executor over syn AST) + z3 per-path assertion checking; native replay of counterexamples'),
